@@ -456,6 +456,12 @@ package resource
 //@   |   (!old(has(recv.byId, key)) ==> ev.ChangeType == types.ChangeType_ADD && isnil(ev.OldValue))
 //@   // preconditions of the write
 //@   ensures [not-found] !old(has(recv.byId, key)) && !writeRequest.createIfAbsent ==> err != nil
+//@   // ... and nothing else stands in the way: with no precondition options, an accepted mask and (where one is needed) a
+//@   // generated id, an absent id is created when creation is allowed and a present one is updated unless expected absent
+//@   ensures [creates] !old(has(recv.byId, key)) && writeRequest.createIfAbsent && isnil(writeRequest.expectedValue) && writeRequest.expectedCheck == nil &&
+//@   |   lastcall(Validate) == nil && (lastcall(genID, 1) == nil || !(writeRequest.genEmptyID && keyOf(recv, id0) == "")) ==> err == nil
+//@   ensures [updates] old(has(recv.byId, key)) && !writeRequest.expectAbsent && isnil(writeRequest.expectedValue) && writeRequest.expectedCheck == nil &&
+//@   |   lastcall(Validate) == nil && !(writeRequest.genEmptyID && keyOf(recv, id0) == "") ==> err == nil
 //@   ensures [already-exists] old(has(recv.byId, key)) && writeRequest.expectAbsent ==> err != nil
 //@   ensures [wf] wfColl(recv)
 //@   // C02 (interference mode: the map is arbitrary again at every lock acquisition): the value a commit overwrites is
